@@ -281,8 +281,8 @@ def appClosed (h : History) : Bool :=
     | .sdrop _ | .ldrop _ | .ccancel _ => true
     | _ => false
 
-/-- C06 liveness oracle for a history that ended quiescent within the fault budget and in which no
-    application gave up a handle: nobody saw an error; no connect is still pending; no writer is
+/-- C06 liveness oracle for a history that ended quiescent (silent egress rounds, nothing left on the
+    wire) within the fault budget and in which no application gave up a handle: nobody saw an error; no connect is still pending; no writer is
     parked (its last `write` returned pending); no reader is parked (its last `read` returned
     pending) while the peer has written bytes it has not received, or has closed its write side
     without EOF having been seen. -/
@@ -310,9 +310,20 @@ def c06LivenessCore (h : History) : Option String :=
             else none
           else none)
 
+/-- Packets emitted but neither delivered nor dropped by the end of the history. -/
+def undelivered (h : History) : Nat :=
+  (h.foldl (fun (acc : List Nat) e =>
+    match e.1 with
+    | .egress => acc ++ e.2.filterMap fun o => match o with
+        | .pkt id p => if p.udp.isSome then none else some id
+        | _ => none
+    | .deliver id | .drop id => acc.filter (· != id)
+    | _ => acc) []).length
+
 def c06Liveness (cfg : Cfg) (h : History) : Option String :=
   if !withinBudget cfg h then none
   else if trailingQuiet h < cfg.retxThreshold + 1 then none
+  else if undelivered h > 0 then none
   else if appClosed h then none
   else c06LivenessCore h
 
